@@ -45,6 +45,8 @@ const SHAPES: &[(&str, &[&str])] = &[
     // both patterns match every "x wug y", with the fields bound the other way round: the rule may
     // decline the first binding and accept the second
     ("wug", &["{NUMBER:a} wug {NUMBER:b}", "{NUMBER:b} wug {NUMBER:a}"]),
+    // a keyword with cased non-ASCII letters: lines may spell it in another case
+    ("çörk", &["çörk {NUMBER:n}"]),
 ];
 
 fn shape_of(spec: &RuleSpec) -> Option<usize> {
@@ -61,6 +63,7 @@ fn gen_rule(r: &mut Rng, id: u32, rated: &[String]) -> RuleSpec {
         3 => ResultSpec::NumberTimes { field: if r.chance(1, 2) { "a".into() } else { "b".into() }, k: (2 + r.below(7)) as f64 },
         4 => if r.chance(1, 2) { ResultSpec::DurationSecs(60 * (1 + r.below(1000)) as i64) } else { ResultSpec::Percent((1 + r.below(99)) as f64) },
         6 => ResultSpec::NumberTimes { field: if r.chance(1, 2) { "a".into() } else { "b".into() }, k: (2 + r.below(7)) as f64 },
+        7 => if r.chance(1, 2) { ResultSpec::NumberTimes { field: "n".into(), k: (2 + r.below(7)) as f64 } } else { ResultSpec::Number((100 + r.below(900)) as f64) },
         _ => ResultSpec::Money { amount: (1 + r.below(500)) as f64, code: r.pick(rated).clone() },
     };
     RuleSpec { id, name: format!("rule{}", r.below(5)), patterns: pats.iter().map(|s| s.to_string()).collect(), result, decline_num: if k == 6 { *r.pick(&[1u32, 2, 2, 3]) } else { *r.pick(&[0u32, 0, 1, 2, 4]) }, decline_den: 4, unwind_den: 0 }
@@ -68,6 +71,17 @@ fn gen_rule(r: &mut Rng, id: u32, rated: &[String]) -> RuleSpec {
 
 /// a probe line for shape k: (line, matches?)
 fn gen_probe(r: &mut Rng, k: usize) -> (String, bool) {
+    let (line, m) = gen_probe_lc(r, k);
+    // now and then the keyword in another case (it folds back byte for byte)
+    if r.chance(1, 6) {
+        let kw = SHAPES[k].0;
+        let alt = if r.chance(1, 2) { kw.to_uppercase() } else { crate::gen::raw::capitalize(kw) };
+        if alt.to_lowercase() == kw { return (line.replace(kw, &alt), m); }
+    }
+    (line, m)
+}
+
+fn gen_probe_lc(r: &mut Rng, k: usize) -> (String, bool) {
     let n = r.below(50);
     let m = 1 + r.below(50);
     match k {
@@ -77,8 +91,31 @@ fn gen_probe(r: &mut Rng, k: usize) -> (String, bool) {
         3 => match r.below(3) { 0 | 1 => (format!("{} frob {}", n, m), true), _ => (format!("{} frob apple", n), false) },
         4 => match r.below(3) { 0 => (format!("glorp {}% glorp", n), true), 1 => (format!("{}% glorp glorp", n), true), _ => (format!("glorp {} glorp", n), false) },
         6 => match r.below(4) { 0 => (format!("{} wug apple", n), false), _ => (format!("{} wug {}", n, m), true) },
+        7 => match r.below(4) { 0 => (format!("çörk {}%", n), false), _ => (format!("çörk {}", n), true) },
         _ => match r.below(3) { 0 | 1 => (format!("{} snarf", n), true), _ => (format!("{} snarfx", n), false) },
     }
+}
+
+/// two spots joined by an operator; both spots belong to shapes whose rules return plain numbers
+fn gen_compound(r: &mut Rng) -> String {
+    let spot = |r: &mut Rng| -> String {
+        match r.below(6) {
+            0 => format!("{}", 1 + r.below(90)),
+            1 => format!("zork {}", r.below(50)),
+            2 => format!("{} zork", r.below(50)),
+            3 => format!("{} frob {}", r.below(50), 1 + r.below(50)),
+            4 => format!("{} wug {}", r.below(50), 1 + r.below(50)),
+            _ => format!("çörk {}", r.below(50)),
+        }
+    };
+    let a = spot(r);
+    let b = if r.chance(1, 2) {
+        // the same shape again with other numbers
+        let w: Vec<&str> = a.split(' ').collect();
+        w.iter().map(|x| if x.chars().all(|c| c.is_ascii_digit()) { format!("{}", 1 + r.below(60)) } else { x.to_string() }).collect::<Vec<_>>().join(" ")
+    } else { spot(r) };
+    let op = *r.pick(&["+", "+", "-", "*"]);
+    if r.chance(1, 4) { let c = spot(r); format!("{} {} {} + {}", a, op, b, c) } else { format!("{} {} {}", a, op, b) }
 }
 
 const FAMILIES: &[&str] = &["famx", "famy", "famz"];
@@ -96,13 +133,31 @@ fn gen_item(r: &mut Rng, fam: &str, idx: usize) -> TypeItemSpec {
     // a second name that other families use too (at other indices): a conversion by that name must stay
     // inside the source's own family
     let shared = format!("shr{}", (b'a' + r.below(2) as u8) as char);
-    TypeItemSpec { family: fam.to_string(), index: idx, format: format!("{{value}} {}", unit), parse: vec![format!("{{NUMBER:value}} {{TEXT:type:{}}}", unit)], upgrade: format!("{{value}} / {}", up), downgrade: format!("{{value}} * {}", down), names: vec![unit, shared] }
+    // a third of the items declare steps that are not proportional (an offset): "{value} / 2 + 30", "({value} - 30) * 2"
+    let (upgrade, downgrade) = if r.chance(1, 3) {
+        let c = *r.pick(&[30u32, 7, 100, 12]);
+        (format!("{{value}} / {} + {}", up, c), format!("({{value}} - {}) * {}", c, down))
+    } else {
+        (format!("{{value}} / {}", up), format!("{{value}} * {}", down))
+    };
+    TypeItemSpec { family: fam.to_string(), index: idx, format: format!("{{value}} {}", unit), parse: vec![format!("{{NUMBER:value}} {{TEXT:type:{}}}", unit)], upgrade, downgrade, names: vec![unit, shared] }
 }
 
-fn code_factor(code: &str) -> Option<(char, f64)> {
+/// the declared step as a function: "{value} <op> k", "{value} <op> k + c", "({value} - c) <op> k"
+fn apply_code(code: &str, v: f64) -> Option<f64> {
+    let f = |op: &str, v: f64, k: f64| -> Option<f64> { match op { "/" => Some(v / k), "*" => Some(v * k), _ => None } };
+    if let Some(rest) = code.strip_prefix("({value} - ") {
+        let (c, rest) = rest.split_once(") ")?;
+        let (op, k) = rest.split_once(' ')?;
+        return f(op, v - c.parse::<f64>().ok()?, k.parse().ok()?);
+    }
     let rest = code.strip_prefix("{value} ")?;
-    let (op, k) = rest.split_once(' ')?;
-    Some((op.chars().next()?, k.parse().ok()?))
+    let parts: Vec<&str> = rest.split(' ').collect();
+    match parts.len() {
+        2 => f(parts[0], v, parts[1].parse().ok()?),
+        4 if parts[2] == "+" => Some(f(parts[0], v, parts[1].parse().ok()?)? + parts[3].parse::<f64>().ok()?),
+        _ => None,
+    }
 }
 
 /// expected amount when converting `v` from index s to index t along the declared chain
@@ -113,18 +168,16 @@ fn chain_model(items: &BTreeMap<usize, TypeItemSpec>, v: f64, s: usize, t: usize
     if s < t {
         for i in s..t {
             let it = items.get(&i)?;
-            let (op, k) = code_factor(&it.upgrade)?;
-            v = if op == '/' { v / k } else { v * k };
-            if v.fract() != 0.0 { return None; } // stay integral: fractional intermediates are C08's subject
+            v = apply_code(&it.upgrade, v)?;
+            if v.fract() != 0.0 || v < 0.0 { return None; } // stay integral: fractional intermediates are C08's subject
         }
         items.get(&t)?;
     } else {
         let mut i = s;
         while i > t {
             let it = items.get(&i)?;
-            let (op, k) = code_factor(&it.downgrade)?;
-            v = if op == '/' { v / k } else { v * k };
-            if v.fract() != 0.0 { return None; }
+            v = apply_code(&it.downgrade, v)?;
+            if v.fract() != 0.0 || v < 0.0 { return None; }
             i -= 1;
         }
         items.get(&t)?;
@@ -229,6 +282,8 @@ impl Check for C18 {
                         let fam = *r.pick(FAMILIES);
                         format!("{} {} {} {}", 3600 * (1 + r.below(50)), unit_name(fam, r.usize(5)), r.pick(&["to", "in", "as", "into"]), unit_name(fam, r.usize(5)))
                     }
+                } else if r.chance(1, 5) {
+                    gen_compound(&mut r)
                 } else {
                     let k = if !shapes_seen.is_empty() && r.chance(2, 3) { *r.pick(&shapes_seen) } else { r.usize(SHAPES.len()) };
                     gen_probe(&mut r, k).0
@@ -254,7 +309,7 @@ impl Check for C18 {
         let mut type_history: Vec<AdminOp> = Vec::new();
         // fixed sentinel probes for "rejected calls change nothing"
         let sentinels: Vec<(String, String)> = vec![
-            ("en".into(), "5 zork".into()), ("en".into(), "blip apple".into()), ("en".into(), "7 usd quux".into()), ("en".into(), "2 frob 3".into()), ("en".into(), "4 snarf".into()), ("en".into(), "6 wug 7".into()),
+            ("en".into(), "5 zork".into()), ("en".into(), "blip apple".into()), ("en".into(), "7 usd quux".into()), ("en".into(), "2 frob 3".into()), ("en".into(), "4 snarf".into()), ("en".into(), "6 wug 7".into()), ("en".into(), "çörk 8".into()), ("en".into(), "3 zork + 2 frob 5".into()),
             ("en".into(), format!("7200 {} to {}", unit_name("famx", 3), unit_name("famx", 1))), ("en".into(), format!("7200 {} to {}", unit_name("famy", 0), unit_name("famy", 2))), ("tr".into(), "5 zork".into()),
         ];
 
@@ -330,7 +385,40 @@ impl Check for C18 {
                         rep.unjudged += 1;
                         continue;
                     }
+                    // several spots joined by operators: every spot is rewritten as it is alone, so the line's
+                    // value is the same arithmetic over the values the spots have alone (on this calculator, now)
+                    if let Some((spots, ops)) = split_compound(&line) {
+                        // a spot counts when it is a plain number, or when exactly ONE live rule accepts it (which of
+                        // several accepting rules gets a spot is not specified; a spot every rule declines is
+                        // several tokens, not one operand)
+                        let alone: Vec<Option<f64>> = spots.iter().map(|sp| {
+                            let v = match l.execute(lang, sp, &ev.clock).0.lines().and_then(|x| x.first()).and_then(|x| x.slot.val().cloned()) { Some(Val::Num { v, .. }) => Some(v.0), _ => None };
+                            if sp.chars().all(|c| c.is_ascii_digit()) { return v; }
+                            let k = match SHAPES.iter().position(|(k, _)| sp.split(' ').any(|w| w == *k)) { Some(k) => k, None => return None };
+                            let f = match expected_fields(k, sp, &l) { Some(f) => f, None => return None };
+                            let bindings = if k == 6 { vec![f.clone(), vec![(f[0].0.clone(), f[1].1.clone()), (f[1].0.clone(), f[0].1.clone())]] } else { vec![f] };
+                            let digests: Vec<u64> = bindings.iter().map(|b| { let mut b = b.clone(); b.sort_by(|x, y| x.0.cmp(&y.0)); digest_vals(&b) }).collect();
+                            let acceptors = l.cfg.rules.get(lang).map(|v| v.iter().filter(|s| shape_of(s) == Some(k) && digests.iter().any(|d| crate::rules::decide(s, trace.salt, *d) == Decision::Accept)).count()).unwrap_or(0);
+                            if acceptors == 1 { v } else { None }
+                        }).collect();
+                        rep.evaluations += spots.len() as u64;
+                        if alone.iter().all(|a| a.is_some()) {
+                            let vals: Vec<f64> = alone.iter().map(|a| a.unwrap()).collect();
+                            let exp = fold_compound(&vals, &ops);
+                            rep.judged += 1;
+                            rep.count("probe.compound_line");
+                            let got = match slot.val() { Some(Val::Num { v, .. }) => Some(v.0), _ => None };
+                            if got != Some(exp) {
+                                rep.violate("O-effect", "compound-line".into(), ei, format!("line {:?}: its spots evaluate alone to {:?}, so the line is {} - the calculator gave {}", line, vals, exp, slot.short()));
+                            }
+                        } else { rep.unjudged += 1; }
+                        continue;
+                    }
                     // rule probe: expected call sequence
+                    let lower = line.to_lowercase();
+                    if lower != line { rep.count("probe.keyword_in_other_case"); }
+                    let orig_line = line.clone();
+                    let line = lower;
                     let kw = SHAPES.iter().position(|(k, _)| line.split(|c: char| !c.is_alphabetic()).any(|w| w == *k));
                     let live: Vec<RuleSpec> = match kw { Some(k) => l.cfg.rules.get(lang).map(|v| v.iter().filter(|s| shape_of(s) == Some(k)).cloned().collect()).unwrap_or_default(), None => vec![] };
                     let fields: Option<Vec<Vec<(String, Val)>>> = kw.and_then(|k| expected_fields(k, &line, &l)).map(|f| {
@@ -338,7 +426,7 @@ impl Check for C18 {
                         if kw == Some(6) { let swapped = vec![(f[0].0.clone(), f[1].1.clone()), (f[1].0.clone(), f[0].1.clone())]; vec![f, swapped] } else { vec![f] }
                     });
                     rep.judged += 1;
-                    let (po, _) = p.execute(lang, &line, &ev.clock);
+                    let (po, _) = p.execute(lang, &orig_line, &ev.clock);
                     let pslot = po.lines().and_then(|l| l.first()).map(|s| s.slot.clone());
                     match fields {
                         None => {
@@ -441,6 +529,33 @@ fn eval_set(w: &World, probes: &[(String, String)], clk: &ClockScript) -> Vec<Ca
     probes.iter().map(|(lang, line)| w.execute(lang, line, clk).0).collect()
 }
 
+/// "A op B [op C]" with op in + - * (blank separated) -> (spots, operators)
+fn split_compound(line: &str) -> Option<(Vec<String>, Vec<char>)> {
+    let words: Vec<&str> = line.split(' ').collect();
+    if !words.iter().any(|w| ["+", "-", "*"].contains(w)) { return None; }
+    let mut spots = Vec::new();
+    let mut ops = Vec::new();
+    let mut cur: Vec<&str> = Vec::new();
+    for w in words {
+        if ["+", "-", "*"].contains(&w) { if cur.is_empty() { return None; } spots.push(cur.join(" ")); cur.clear(); ops.push(w.chars().next().unwrap()); } else { cur.push(w); }
+    }
+    if cur.is_empty() { return None; }
+    spots.push(cur.join(" "));
+    Some((spots, ops))
+}
+
+/// usual precedence: * before + and -, left to right
+fn fold_compound(vals: &[f64], ops: &[char]) -> f64 {
+    let mut terms: Vec<f64> = vec![vals[0]];
+    let mut adds: Vec<char> = Vec::new();
+    for (i, op) in ops.iter().enumerate() {
+        if *op == '*' { let last = terms.last_mut().unwrap(); *last *= vals[i + 1]; } else { adds.push(*op); terms.push(vals[i + 1]); }
+    }
+    let mut acc = terms[0];
+    for (i, op) in adds.iter().enumerate() { if *op == '+' { acc += terms[i + 1]; } else { acc -= terms[i + 1]; } }
+    acc
+}
+
 enum Target { Index(usize), Shared(String) }
 
 /// "N famXa to famXb" / "N famXa to shrb" -> (N, family, index a, target)
@@ -491,6 +606,7 @@ fn expected_fields(k: usize, line: &str, _l: &World) -> Option<Vec<(String, Val)
             else { None }
         }
         6 => if words.len() == 3 && words[1] == "wug" { match (num(words[0]), num(words[2])) { (Some(a), Some(b)) => Some(vec![("a".to_string(), n(a)), ("b".to_string(), n(b))]), _ => None } } else { None },
+        7 => if words.len() == 2 && words[0] == "çörk" { num(words[1]).map(|v| vec![("n".to_string(), n(v))]) } else { None },
         _ => if words.len() == 2 && words[1] == "snarf" { num(words[0]).map(|v| vec![("coin".to_string(), Val::Other("Text(snarf)".to_string())), ("n".to_string(), n(v))]) } else { None },
     }
 }
